@@ -67,7 +67,8 @@ def build_harness(flavor="ndebug", sanitize=True, opt="-O1"):
     """flavor: 'ndebug' (asserts compiled out, like the shipped test build) or 'assert'.
     Returns path to the driver binary.  Raises RuntimeError with compiler output on failure."""
     drv = os.path.join(VERIF, "harness", "drv.cpp")
-    key = tree_hash([drv]) + "-" + flavor + ("-san" if sanitize else "-plain")
+    shim = os.path.join(VERIF, "harness", "bb_shim.c")
+    key = tree_hash([drv, shim]) + "-" + flavor + ("-san" if sanitize else "-plain")
     out = os.path.join(BUILD, "h-" + key)
     exe = os.path.join(out, "drv")
     with Lock("h-" + flavor + ("s" if sanitize else "p")):
@@ -83,6 +84,8 @@ def build_harness(flavor="ndebug", sanitize=True, opt="-O1"):
         objs = []
         for pat in C_SOURCES:
             for src in sorted(glob.glob(os.path.join(REPO, pat))):
+                if os.path.relpath(src, REPO) == "utcp/bit_buffer.c":
+                    src = shim  # the same file, #included, plus an exported wrapper for the static bit-run copier
                 obj = os.path.join(tmp, os.path.relpath(src, REPO).replace("/", "_") + ".o")
                 objs.append(obj)
                 jobs.append(["gcc", "-std=gnu11", opt, "-g", "-w", "-I" + REPO, "-I" + os.path.join(REPO, "utcp")] + defs + san + ["-c", src, "-o", obj])
